@@ -42,7 +42,10 @@ fuzz_target!(|data: &[u8]| {
         Err(_) => data.iter().map(|&b| b as char).collect(),
     };
     judge(&text, "raw bytes");
-    let gates = Gates::all_on();
+    // constructs behind known findings stay switched off, as in the check itself
+    static OFF: std::sync::OnceLock<Vec<String>> = std::sync::OnceLock::new();
+    let off = OFF.get_or_init(|| ironplc_verif::report::gates_off(&ironplc_verif::report::load_findings(), "C04"));
+    let gates = Gates::with_off(off.clone());
     let (gen, fam) = c04::gen_input(&mut Tape::new(data), &gates);
     gates.take_hits();
     gates.take_wanted();
